@@ -86,6 +86,17 @@ fn get_border(
     Ok(Some(BorderItem { style, color }))
 }
 
+/// The first child element of `parent` called `tag`, or an error naming the missing element.
+fn required_child<'a, 'input>(
+    parent: Node<'a, 'input>,
+    tag: &str,
+) -> Result<Node<'a, 'input>, XlsxError> {
+    parent
+        .children()
+        .find(|n| n.has_tag_name(tag))
+        .ok_or_else(|| XlsxError::Xml(format!("Corrupt XML structure: missing <{tag}> in styles.xml")))
+}
+
 pub(super) fn load_styles<R: Read + std::io::Seek>(
     archive: &mut zip::read::ZipArchive<R>,
     theme: &Theme,
@@ -121,10 +132,7 @@ pub(super) fn load_styles<R: Read + std::io::Seek>(
     }
 
     let mut fonts = Vec::new();
-    let font_nodes = style_sheet
-        .children()
-        .filter(|n| n.has_tag_name("fonts"))
-        .collect::<Vec<Node>>()[0];
+    let font_nodes = required_child(style_sheet, "fonts")?;
     for font in font_nodes.children() {
         let mut sz = 11;
         let mut name = "Inter".to_string();
@@ -207,10 +215,7 @@ pub(super) fn load_styles<R: Read + std::io::Seek>(
     }
 
     let mut fills = Vec::new();
-    let fill_nodes = style_sheet
-        .children()
-        .filter(|n| n.has_tag_name("fills"))
-        .collect::<Vec<Node>>()[0];
+    let fill_nodes = required_child(style_sheet, "fills")?;
     for fill in fill_nodes.children() {
         let pattern_fill = fill
             .children()
@@ -251,10 +256,7 @@ pub(super) fn load_styles<R: Read + std::io::Seek>(
     }
 
     let mut borders = Vec::new();
-    let border_nodes = style_sheet
-        .children()
-        .filter(|n| n.has_tag_name("borders"))
-        .collect::<Vec<Node>>()[0];
+    let border_nodes = required_child(style_sheet, "borders")?;
     for border in border_nodes.children() {
         let diagonal_up = get_bool_false(border, "diagonal_up");
         let diagonal_down = get_bool_false(border, "diagonal_down");
@@ -275,10 +277,7 @@ pub(super) fn load_styles<R: Read + std::io::Seek>(
     }
 
     let mut cell_style_xfs = Vec::new();
-    let cell_style_xfs_nodes = style_sheet
-        .children()
-        .filter(|n| n.has_tag_name("cellStyleXfs"))
-        .collect::<Vec<Node>>()[0];
+    let cell_style_xfs_nodes = required_child(style_sheet, "cellStyleXfs")?;
     for xfs in cell_style_xfs_nodes.children() {
         let num_fmt_id = get_number(xfs, "numFmtId");
         let font_id = get_number(xfs, "fontId");
@@ -307,10 +306,7 @@ pub(super) fn load_styles<R: Read + std::io::Seek>(
 
     let mut cell_styles = Vec::new();
     let mut style_names = HashMap::new();
-    let cell_style_nodes = style_sheet
-        .children()
-        .filter(|n| n.has_tag_name("cellStyles"))
-        .collect::<Vec<Node>>()[0];
+    let cell_style_nodes = required_child(style_sheet, "cellStyles")?;
     for cell_style in cell_style_nodes.children() {
         let name = get_attribute(&cell_style, "name")?.to_string();
         let xf_id = get_number(cell_style, "xfId");
@@ -330,10 +326,7 @@ pub(super) fn load_styles<R: Read + std::io::Seek>(
     }
 
     let mut cell_xfs = Vec::new();
-    let cell_xfs_nodes = style_sheet
-        .children()
-        .filter(|n| n.has_tag_name("cellXfs"))
-        .collect::<Vec<Node>>()[0];
+    let cell_xfs_nodes = required_child(style_sheet, "cellXfs")?;
     for xfs in cell_xfs_nodes.children() {
         // `xfId` is optional on a cellXfs <xf> (it references cellStyleXfs;
         // many Excel/LibreOffice files omit it). Default to 0 when absent.
